@@ -171,6 +171,65 @@ def check_biginteger_sign_room(ctx, pt):
               'the padded bit string leaves no room for the sign bit or is not a multiple of 64 bits for (bit length, padded length) = %s: such values decode with the wrong sign' % bad[:4])
 
 
+def check_shared_defaults(ctx):
+    """C01.R6: no codec object shares a mutable container with other instances through a constructor default."""
+    ctx.rule('C01.R6', 'no constructor of a codec class stores a mutable default argument (a list/dict/set evaluated once at definition time) into an instance field that the class fills in place (append/extend/insert/item store, as the decoders do): otherwise every instance built with the default shares one container and what one message decodes shows up in the next')
+    MUT = ('append', 'extend', 'insert', 'update', 'add', 'setdefault', 'remove', 'pop', 'clear')
+    n_cls = 0
+    n_def = 0
+    for rel in ctx.src.modules('kmip/core'):
+        t = ctx.src.tree(rel)
+        for cls in [n for n in ast.walk(t) if isinstance(n, ast.ClassDef)]:
+            init = next((f for f in cls.body if isinstance(f, ast.FunctionDef) and f.name == '__init__'), None)
+            if init is None:
+                continue
+            n_cls += 1
+            a = init.args
+            pos = a.posonlyargs + a.args
+            defaults = dict(zip([x.arg for x in pos[len(pos) - len(a.defaults):]], a.defaults))
+            defaults.update({k.arg: d for k, d in zip(a.kwonlyargs, a.kw_defaults) if d is not None})
+            for pname, d in sorted(defaults.items()):
+                mutable = isinstance(d, (ast.List, ast.Dict, ast.Set, ast.ListComp, ast.DictComp, ast.SetComp)) or (isinstance(d, ast.Call) and call_name(d) in ('list', 'dict', 'set', 'bytearray', 'collections.OrderedDict', 'OrderedDict'))
+                if not mutable:
+                    continue
+                n_def += 1
+                # fields (or property names) the parameter is stored into as is
+                fields = set()
+                for s_ in walk_local(init):
+                    if isinstance(s_, ast.Assign) and isinstance(s_.value, ast.Name) and s_.value.id == pname:
+                        for tg in s_.targets:
+                            if isinstance(tg, ast.Attribute) and isinstance(tg.value, ast.Name) and tg.value.id == 'self':
+                                fields.add(tg.attr)
+                # property setters storing their value into a private field
+                for f in cls.body:
+                    if isinstance(f, ast.FunctionDef) and f.name in fields and any(isinstance(dd, ast.Attribute) and dd.attr == 'setter' for dd in f.decorator_list) and len(f.args.args) == 2:
+                        vn = f.args.args[1].arg
+                        for s_ in walk_local(f):
+                            if isinstance(s_, ast.Assign) and isinstance(s_.value, ast.Name) and s_.value.id == vn:
+                                for tg in s_.targets:
+                                    if isinstance(tg, ast.Attribute) and isinstance(tg.value, ast.Name) and tg.value.id == 'self':
+                                        fields.add(tg.attr)
+                site = '%s:%s %s.__init__' % (rel, init.lineno, cls.name)
+                hits = []
+                for f in cls.body:
+                    if not isinstance(f, ast.FunctionDef):
+                        continue
+                    for x in walk_local(f):
+                        if isinstance(x, ast.Call) and isinstance(x.func, ast.Attribute) and x.func.attr in MUT and isinstance(x.func.value, ast.Attribute) and isinstance(x.func.value.value, ast.Name) \
+                                and x.func.value.value.id == 'self' and x.func.value.attr in fields:
+                            hits.append('%s.%s() in %s (line %d)' % (x.func.value.attr, x.func.attr, f.name, x.lineno))
+                        if isinstance(x, ast.Subscript) and isinstance(x.ctx, (ast.Store, ast.Del)) and isinstance(x.value, ast.Attribute) and isinstance(x.value.value, ast.Name) and x.value.value.id == 'self' \
+                                and x.value.attr in fields:
+                            hits.append('item store on %s in %s (line %d)' % (x.value.attr, f.name, x.lineno))
+                ctx.check(not (fields and hits), 'C01.R6', '%s.__init__|mutable-default %s' % (cls.name, pname), site,
+                          'mutable default %s is %s' % (pname, 'not stored into a field' if not fields else 'stored but never filled in place'),
+                          'the default of %s (%s, one object for all calls) is stored into %s and the class fills it in place: %s; every instance created with the default shares the container, so decoding one value changes the others' % (pname, U(d), sorted(fields), hits[:3]))
+    ctx.count('codec_constructors_scanned', n_cls, 150)
+    ctx.analysed['mutable_default_parameters'] = n_def
+    if n_def == 0:
+        ctx.ok('C01.R6', 'kmip/core/**', 'no constructor among %d has a mutable default argument' % n_cls)
+
+
 def run(ctx):
     src = ctx.src
     sch = Schema(src)
@@ -322,6 +381,7 @@ def run(ctx):
                           'padding formula gives (length mod %d, pad) = %s: the encoding is not padded to a multiple of %d' % (ps, bad[:4], ps))
 
     check_biginteger_sign_room(ctx, pt)
+    check_shared_defaults(ctx)
 
     # ---------------- R4 factories
     fm = FactoryModel(src, sch.ix)
@@ -404,5 +464,5 @@ def run(ctx):
     ctx.check(len(set(n for n, t in tt)) == len(tt) and len(set(t for n, t in tt)) == len(tt), 'C01.R5', 'attribute_name_tag_table|bijective', 'kmip/core/enums.py attribute_name_tag_table',
               'the name/tag table is a bijection over %d attributes' % len(tt), 'the attribute name/tag table is not a bijection')
     ctx.not_decided += ['byte-for-byte identity of values through encode/decode for all values (e.g. non-ASCII TextString: length counts characters but UTF-8 bytes are written)',
-                        'BigInteger sign handling at 64-bit boundaries; enum member values', 'inherently dynamic classes (Attribute with value factory, Credential value by type) are compared on identity, not tag']
+                        'enum member values', 'inherently dynamic classes (Attribute with value factory, Credential value by type) are compared on identity, not tag']
     ctx.assumptions += ['struct.calcsize / format ranges of the Python struct module', 'every child object obeys its own class schema (compositional argument over the class hierarchy)']
